@@ -54,6 +54,9 @@ func Main(m *testing.M) {
 // reported as inconclusive by the driver rather than as a pass.
 func Check(t *testing.T, sub string, n int, prop func(*rapid.T)) {
 	t.Helper()
+	if only := os.Getenv("VERIF_ONLY_SUB"); only != "" && only != sub {
+		return // development aid: run a single sub-check
+	}
 	n = evid.SetChecks(n)
 	evid.Requested(sub, n)
 	var done atomic.Int64
